@@ -13,3 +13,22 @@ extern "C" void unifex_verif_point(unsigned site) noexcept;
 #else
 #  define UNIFEX_VERIF_POINT(site) ((void)0)
 #endif
+
+// ThreadSanitizer does not model std::atomic_thread_fence. Where the library
+// synchronises through "relaxed load; acquire fence; relaxed CAS", the
+// annotation below tells TSan about the acquire that the fence provides, so
+// that it does not report the protected data as racing.
+#if defined(UNIFEX_VERIF_HOOKS) && defined(__has_feature)
+#  if __has_feature(thread_sanitizer)
+#    define UNIFEX_VERIF_HAVE_TSAN 1
+#  endif
+#endif
+#if defined(UNIFEX_VERIF_HOOKS) && defined(__SANITIZE_THREAD__)
+#  define UNIFEX_VERIF_HAVE_TSAN 1
+#endif
+#if defined(UNIFEX_VERIF_HAVE_TSAN)
+extern "C" void __tsan_acquire(void* addr);
+#  define UNIFEX_VERIF_TSAN_ACQUIRE(addr) ::__tsan_acquire((void*)(addr))
+#else
+#  define UNIFEX_VERIF_TSAN_ACQUIRE(addr) ((void)0)
+#endif
